@@ -1,7 +1,351 @@
+/-
+  CB.Driver.C12 — op lines of property C12.  Every producer prints `L1 ;; L0`:
+  L1 = CB.Model.Wrappers (mirrors the code), L0 = what the property demands, computed here on plain
+  `Nat` values (a valid wrapped value, decoded in the STATED byte order, or a failure).
+  A produced wrapper whose value breaks the invariant prints `INVALID:<hex>` (as the harness does).
+-/
 import CB.Driver.Util
+import CB.Model.Wrappers
+namespace CB.Wrappers.D12
+open CB CB.Wrappers
+
+def pNz (a : List Nat) : Bool := val a ≠ 0
+def pOdd (a : List Nat) : Bool := val a % 2 = 1
+def tagS (ok : Bool) (s : String) : String := if ok then s else "INVALID:" ++ s
+def showU (p : List Nat → Bool) (a : List Nat) : String := tagS (p a) (limbsHex a)
+def showB (p : List Nat → Bool) (a : List Nat) : String := tagS (p a) (limbsHexLen a)
+def showL (p : List Nat → Bool) (x : Nat) : String := tagS (p [x]) (natToHex x)
+
+def resStr {α : Type} (sh : α → String) : Res α → String
+  | .ok v => sh v
+  | .none => "none"
+  | .panic => "panic"
+  | .err k => "err:" ++ k
+
+def both (l1 l0 : String) : Option String := some (l1 ++ " ;; " ++ l0)
+
+/-- L0 helpers on plain numbers -/
+def optNz (v : Nat) (fail : String) : String := if v = 0 then fail else natToHex v
+def optOdd (v : Nat) (fail : String) : String := if v % 2 = 1 then natToHex v else fail
+def optNzB (k v : Nat) (fail : String) : String := if v = 0 then fail else s!"{k}:{natToHex v}"
+def optOddB (k v : Nat) (fail : String) : String := if v % 2 = 1 then s!"{k}:{natToHex v}" else fail
+
+def words? (tok : String) : Option (List Nat) :=
+  match tokToBytes? tok with
+  | none => none
+  | some bs =>
+    if bs.length % 8 ≠ 0 then none else
+    let rec go : Nat → List Nat → List Nat → List Nat
+      | 0, _, acc => acc.reverse
+      | k + 1, bs, acc => go k (bs.drop 8) (leVal (bs.take 8) :: acc)
+    some (go (bs.length / 8) bs [])
+
+/-- L0 of rejection sampling: first aligned group of `n` words with a non-zero value -/
+def specNzRandom (n : Nat) : Nat → List Nat → Nat → String
+  | 0, _, _ => "err:fuel"
+  | f + 1, s, used =>
+    if s.length < n then "err:exhausted" else
+    let v := val ((s.take n).map (· % B))
+    if v ≠ 0 then s!"{natToHex v} {used + n}" else specNzRandom n f (s.drop n) (used + n)
+
+def isHexChar (c : Nat) : Bool := (48 ≤ c ∧ c ≤ 57) ∨ (65 ≤ c ∧ c ≤ 70) ∨ (97 ≤ c ∧ c ≤ 102)
+def hexDigitVal (c : Nat) : Nat := if c ≤ 57 then c - 48 else if c ≤ 70 then c - 55 else c - 87
+/-- L0 of a hex constructor of `Odd<Uint<n>>`: `le = true` for the little-endian reading -/
+def specOddHex (n : Nat) (cs : List Nat) (le : Bool) : String :=
+  if cs.length ≠ 16 * n ∨ ¬ cs.all isHexChar then "panic" else
+  let rec bytes : List Nat → List Nat
+    | h :: l :: r => (hexDigitVal h * 16 + hexDigitVal l) :: bytes r
+    | _ => []
+  let bs := bytes cs
+  let v := if le then leVal bs else beVal bs
+  optOdd v "panic"
+
+def specFrame (n : Nat) (bs : List Nat) : Except String Nat :=
+  if bs.length < 8 then .error "err:decode" else
+  let len := leVal (bs.take 8)
+  if bs.length - 8 < len then .error "err:decode" else
+  if len ≠ 8 * n then .error "err:custom" else
+  .ok (leVal ((bs.drop 8).take len))
+
+def intOf (n v : Nat) : Int := if v ≥ B ^ n / 2 then (v : Int) - (B ^ n : Nat) else v
+
+def sel (c : String) : Option Nat := if c = "0" then some 0 else if c = "1" then some WMAX else none
+
+/-- producers on `Uint<n>` / `Int<n>` operands: `args` = tokens after the limb count -/
+def fixedOps (op : String) (n : Nat) (args : List String) : Option String :=
+  let M := B ^ n
+  let u1 (v : String) (f : List Nat → Nat → Option String) : Option String :=
+    match hexToNat? v with
+    | some x => if x < M then f (toLimbs n x) x else badArgs
+    | none => badArgs
+  let bytesN (t : String) (f : List Nat → Option String) : Option String :=
+    match tokToBytes? t with
+    | some bs => if bs.length = 8 * n then f bs else badArgs
+    | none => badArgs
+  let pair (x y c : String) (f : List Nat → List Nat → Nat → Nat → Nat → Nat → Option String) : Option String :=
+    match hexToNat? x, hexToNat? y, sel c with
+    | some a, some b, some m => if a < M ∧ b < M then f (toLimbs n a) (toLimbs n b) m a b (if m = 0 then 0 else 1) else badArgs
+    | _, _, _ => badArgs
+  match op, args with
+  | "c12.nz.u.new", [v] | "c12.nz.i.new", [v] => u1 v fun a x => both (resStr (showU pNz) (nzNew a)) (optNz x "none")
+  | "c12.nz.u.new_unwrap", [v] => u1 v fun a x => both (resStr (showU pNz) (nzNewUnwrap a)) (optNz x "panic")
+  | "c12.nz.u.to_nz", [v] | "c12.nz.i.to_nz", [v] => u1 v fun a x => both (resStr (showU pNz) (uintToNz a)) (optNz x "none")
+  | "c12.nz.u.to_nz_expect", [v] => u1 v fun a x => both (resStr (showU pNz) (expectRes (uintToNz a))) (optNz x "panic")
+  | "c12.nz.u.from_prim", [bits, v] | "c12.nz.u.from_into", [bits, v] =>
+    match bits.toNat?, hexToNat? v with
+    | some bits, some x =>
+      if x ≥ 2 ^ bits then badArgs else
+      both (resStr (showU pNz) (nzFromPrim n bits x))
+        (if x = 0 then "none" else if bits = 128 ∧ n < 2 then "panic" else natToHex x)
+    | _, _ => badArgs
+  | "c12.nz.u.const", ["one"] => both (resStr (showU pNz) (nzOne n)) "1"
+  | "c12.nz.u.const", ["max"] => both (resStr (showU pNz) (nzMax n)) (natToHex (M - 1))
+  | "c12.nz.i.const", ["one"] => both (resStr (showU pNz) (nzOne n)) "1"
+  | "c12.nz.i.const", ["max"] => both (resStr (showU pNz) (nzIntMax n)) (natToHex (M / 2 - 1))
+  | "c12.nz.u.default", [] | "c12.nz.i.default", [] => both (resStr (showU pNz) (nzDefault n)) "1"
+  | "c12.nz.u.from_be_bytes", [t] => bytesN t fun bs => both (resStr (showU pNz) (nzFromBeBytes n bs)) (optNz (beVal bs) "none")
+  | "c12.nz.u.from_le_bytes", [t] => bytesN t fun bs => both (resStr (showU pNz) (nzFromLeBytes n bs)) (optNz (leVal bs) "none")
+  | "c12.nz.u.from_be_byte_array", [t] => bytesN t fun bs => both (resStr (showU pNz) (nzFromBeByteArray n bs)) (optNz (beVal bs) "none")
+  | "c12.nz.u.from_le_byte_array", [t] => bytesN t fun bs => both (resStr (showU pNz) (nzFromLeByteArray n bs)) (optNz (leVal bs) "none")
+  | "c12.nz.u.select", [x, y, c] | "c12.nz.u.cassign", [x, y, c] | "c12.nz.i.select", [x, y, c] =>
+    pair x y c fun a b m va vb bit =>
+      match nzNew a, nzNew b with
+      | .ok a, .ok b => both (resStr (showU pNz) (wrapSelect a b m)) (if va = 0 ∨ vb = 0 then "none" else natToHex (if bit = 0 then va else vb))
+      | _, _ => both "none" (if va = 0 ∨ vb = 0 then "none" else natToHex (if bit = 0 then va else vb))
+  | "c12.nz.u.cswap", [x, y, c] =>
+    pair x y c fun a b m va vb bit =>
+      let l0 := if va = 0 ∨ vb = 0 then "none" else if bit = 0 then s!"{natToHex va} {natToHex vb}" else s!"{natToHex vb} {natToHex va}"
+      match nzNew a, nzNew b with
+      | .ok a, .ok b => let r := wrapSwap a b m; both s!"{showU pNz r.1} {showU pNz r.2}" l0
+      | _, _ => both "none" l0
+  | "c12.nz.u.random", [s] | "c12.nz.i.random", [s] =>
+    match words? s with
+    | some ws => both (resStr (fun r : List Nat × Nat => s!"{showU pNz r.1} {r.2}") (nzTryRandom n ws)) (specNzRandom n (ws.length + 1) ws 0)
+    | none => badArgs
+  | "c12.nz.u.random_inf", [s] =>
+    match words? s with
+    | some ws =>
+      let t := ws ++ List.replicate (2 * n) WMAX
+      both (resStr (fun r : List Nat × Nat => s!"{showU pNz r.1} {r.2}") (nzRandomInf n ws)) (specNzRandom n (t.length + 1) t 0)
+    | none => badArgs
+  | "c12.nz.u.deser", [t] =>
+    match tokToBytes? t with
+    | some bs => both (resStr (showU pNz) (nzDeser n bs))
+        (match specFrame n bs with | .error e => e | .ok v => if v = 0 then "err:zero" else natToHex v)
+    | none => badArgs
+  | "c12.nz.u.zeroize", [v] => u1 v fun a x =>
+      match nzNew a with
+      | .ok a => both (resStr (showU pNz) (wrapZeroize a)) (if x = 0 then "none" else "1")
+      | _ => both "none" (if x = 0 then "none" else "1")
+  | "c12.nz.u.clone", [v] => u1 v fun a x =>
+      match nzNew a with
+      | .ok a => both (resStr (showU pNz) (wrapSame a)) (optNz x "none")
+      | _ => both "none" (optNz x "none")
+  | "c12.nz.i.abs_sign", [v] => u1 v fun a x =>
+      let i := intOf n x
+      let l0 := if x = 0 then "none" else s!"{natToHex i.natAbs} {if i < 0 then 1 else 0}"
+      match uintToNz a with
+      | .ok a => both (resStr (fun r : List Nat × Nat => s!"{showU pNz r.1} {choiceTok r.2}") (nzIntAbsSign a)) l0
+      | _ => both "none" l0
+  -- ---- Odd
+  | "c12.odd.u.new", [v] => u1 v fun a x => both (resStr (showU pOdd) (oddNew a)) (optOdd x "none")
+  | "c12.odd.u.to_odd", [v] | "c12.odd.i.to_odd", [v] => u1 v fun a x => both (resStr (showU pOdd) (uintToOdd a)) (optOdd x "none")
+  | "c12.odd.u.to_odd_expect", [v] => u1 v fun a x => both (resStr (showU pOdd) (expectRes (uintToOdd a))) (optOdd x "panic")
+  | "c12.odd.u.default", [] | "c12.odd.i.default", [] => both (resStr (showU pOdd) (oddDefault n)) "1"
+  | "c12.odd.u.default_as_nz", [] =>
+    both (match oddDefault n with | .ok a => resStr (showU pNz) (oddAsNzRef a) | r => resStr (showU pNz) r) "1"
+  | "c12.odd.u.from_be_hex", [t] =>
+    match tokToBytes? t with
+    | some cs => both (resStr (showU pOdd) (oddFromBeHex n cs)) (specOddHex n cs false)
+    | none => badArgs
+  | "c12.odd.u.from_le_hex", [t] =>
+    match tokToBytes? t with
+    | some cs => both (resStr (showU pOdd) (oddFromLeHex n cs)) (specOddHex n cs true)
+    | none => badArgs
+  | "c12.odd.u.select", [x, y, c] | "c12.odd.u.cassign", [x, y, c] =>
+    pair x y c fun a b m va vb bit =>
+      let l0 := if va % 2 = 0 ∨ vb % 2 = 0 then "none" else natToHex (if bit = 0 then va else vb)
+      match oddNew a, oddNew b with
+      | .ok a, .ok b => both (resStr (showU pOdd) (wrapSelect a b m)) l0
+      | _, _ => both "none" l0
+  | "c12.odd.i.select", [x, y, c] =>
+    pair x y c fun a b m va vb bit =>
+      let l0 := if va % 2 = 0 ∨ vb % 2 = 0 then "none" else natToHex (if bit = 0 then va else vb)
+      match uintToOdd a, uintToOdd b with
+      | .ok a, .ok b => both (resStr (showU pOdd) (wrapSelect a b m)) l0
+      | _, _ => both "none" l0
+  | "c12.odd.u.cswap", [x, y, c] =>
+    pair x y c fun a b m va vb bit =>
+      let l0 := if va % 2 = 0 ∨ vb % 2 = 0 then "none" else if bit = 0 then s!"{natToHex va} {natToHex vb}" else s!"{natToHex vb} {natToHex va}"
+      match oddNew a, oddNew b with
+      | .ok a, .ok b => let r := wrapSwap a b m; both s!"{showU pOdd r.1} {showU pOdd r.2}" l0
+      | _, _ => both "none" l0
+  | "c12.odd.u.random", [s] =>
+    match words? s with
+    | some ws => both (resStr (fun r : List Nat × Nat => s!"{showU pOdd r.1} {r.2}") (oddTryRandom n ws))
+        (if ws.length < n then "err:exhausted" else
+          let v := val ((ws.take n).map (· % B)); s!"{natToHex (v - v % 2 + 1)} {n}")
+    | none => badArgs
+  | "c12.odd.u.random_inf", [s] =>
+    match words? s with
+    | some ws =>
+      let t := ws ++ List.replicate n WMAX
+      both (resStr (fun r : List Nat × Nat => s!"{showU pOdd r.1} {r.2}") (oddRandomInf n ws))
+        (let v := val ((t.take n).map (· % B)); s!"{natToHex (v - v % 2 + 1)} {n}")
+    | none => badArgs
+  | "c12.odd.u.deser", [t] =>
+    match tokToBytes? t with
+    | some bs => both (resStr (showU pOdd) (oddDeser n bs))
+        (match specFrame n bs with | .error e => e | .ok v => if v % 2 = 0 then "err:even" else natToHex v)
+    | none => badArgs
+  | "c12.odd.u.as_nz_ref", [v] | "c12.odd.u.as_ref_nz", [v] => u1 v fun a x =>
+      match oddNew a with
+      | .ok a => both (resStr (showU pNz) (oddAsNzRef a)) (optOdd x "none")
+      | _ => both "none" (optOdd x "none")
+  | "c12.odd.u.zeroize", [v] => u1 v fun a x =>
+      match oddNew a with
+      | .ok a => both (resStr (showU pOdd) (wrapZeroize a)) (if x % 2 = 0 then "none" else "1")
+      | _ => both "none" (if x % 2 = 0 then "none" else "1")
+  | "c12.odd.u.clone", [v] | "c12.odd.u.monty_modulus", [v] => u1 v fun a x =>
+      match oddNew a with
+      | .ok a => both (resStr (showU pOdd) (wrapSame a)) (optOdd x "none")
+      | _ => both "none" (optOdd x "none")
+  | "c12.odd.u.into_boxed", [v] | "c12.odd.u.ref_into_boxed", [v] => u1 v fun a x =>
+      match oddNew a with
+      | .ok a => both (resStr (showB pOdd) (oddIntoBoxed a)) (optOddB n x "none")
+      | _ => both "none" (optOddB n x "none")
+  | _, _ => none
+
+def limbOps (op : String) (args : List String) : Option String :=
+  let l1 (v : String) (f : Nat → Option String) : Option String :=
+    match hexToNat? v with
+    | some x => if x < B then f x else badArgs
+    | none => badArgs
+  let sh := resStr (showL pNz)
+  match op, args with
+  | "c12.nz.l.new", [v] => l1 v fun x => both (sh (nzLimbNew x)) (optNz x "none")
+  | "c12.nz.l.new_unwrap", [v] => l1 v fun x => both (sh (nzLimbNewUnwrap x)) (optNz x "panic")
+  | "c12.nz.l.to_nz", [v] => l1 v fun x => both (sh (limbToNz x)) (optNz x "none")
+  | "c12.nz.l.to_nz_expect", [v] => l1 v fun x => both (sh (limbToNzExpect x)) (optNz x "panic")
+  | "c12.nz.l.from_prim", [bits, v] | "c12.nz.l.from_into", [bits, v] =>
+    match bits.toNat?, hexToNat? v with
+    | some bits, some x => if x ≥ 2 ^ bits ∨ bits > 64 then badArgs else both (sh (nzLimbFromPrim bits x)) (optNz x "none")
+    | _, _ => badArgs
+  | "c12.nz.l.const", ["one"] => both (sh nzLimbOne) "1"
+  | "c12.nz.l.const", ["max"] => both (sh nzLimbMax) (natToHex (B - 1))
+  | "c12.nz.l.default", [] => both (sh nzLimbDefault) "1"
+  | "c12.odd.l.default", [] => both (resStr (showL pOdd) oddLimbDefault) "1"
+  | "c12.nz.l.from_be_bytes", [t] =>
+    match tokToBytes? t with
+    | some bs => if bs.length = 8 then both (sh (nzLimbFromBeBytes bs)) (optNz (beVal bs) "none") else badArgs
+    | none => badArgs
+  | "c12.nz.l.from_le_bytes", [t] =>
+    match tokToBytes? t with
+    | some bs => if bs.length = 8 then both (sh (nzLimbFromLeBytes bs)) (optNz (leVal bs) "none") else badArgs
+    | none => badArgs
+  | "c12.nz.l.select", [x, y, c] | "c12.nz.l.cassign", [x, y, c] | "c12.nz.l.cswap", [x, y, c] =>
+    match hexToNat? x, hexToNat? y, sel c with
+    | some a, some b, some m =>
+      if a ≥ B ∨ b ≥ B then badArgs else
+      let swap := op = "c12.nz.l.cswap"
+      let pick := if m = 0 then a else b
+      let other := if m = 0 then b else a
+      let l0 := if a = 0 ∨ b = 0 then "none" else if swap then s!"{natToHex pick} {natToHex other}" else natToHex pick
+      match nzLimbNew a, nzLimbNew b with
+      | .ok a, .ok b =>
+        if swap then both s!"{showL pNz (selectWord a b m)} {showL pNz (selectWord b a m)}" l0
+        else both (sh (nzLimbSelect a b m)) l0
+      | _, _ => both "none" l0
+    | _, _, _ => badArgs
+  | "c12.nz.l.random", [s] =>
+    match words? s with
+    | some ws => both (resStr (fun r : List Nat × Nat => s!"{showU pNz r.1} {r.2}") (nzTryRandom 1 ws)) (specNzRandom 1 (ws.length + 1) ws 0)
+    | none => badArgs
+  | "c12.nz.l.random_inf", [s] =>
+    match words? s with
+    | some ws =>
+      let t := ws ++ List.replicate 2 WMAX
+      both (resStr (fun r : List Nat × Nat => s!"{showU pNz r.1} {r.2}") (nzRandomInf 1 ws)) (specNzRandom 1 (t.length + 1) t 0)
+    | none => badArgs
+  | "c12.nz.l.deser", [t] =>
+    match tokToBytes? t with
+    | some bs => both (sh (nzLimbDeser bs))
+        (if bs.length < 8 then "err:decode" else let v := leVal (bs.take 8); if v = 0 then "err:zero" else natToHex v)
+    | none => badArgs
+  | "c12.nz.l.zeroize", [v] => l1 v fun x =>
+      match nzLimbNew x with
+      | .ok x => both (sh (nzLimbZeroize x)) "1"
+      | _ => both "none" "none"
+  | _, _ => none
+
+def boxedOps (op : String) (args : List String) : Option String :=
+  let b1 (k v : String) (f : List Nat → Nat → Nat → Option String) : Option String :=
+    match k.toNat?, hexToNat? v with
+    | some k, some x => if x < B ^ k then f (toLimbs k x) k x else badArgs
+    | _, _ => badArgs
+  match op, args with
+  | "c12.nz.b.new", [k, v] => b1 k v fun a k x => both (resStr (showB pNz) (nzBoxedNew a)) (optNzB k x "none")
+  | "c12.nz.b.widen", [k, v, bits] =>
+    match bits.toNat? with
+    | some bits => b1 k v fun a k x =>
+        let l0 := if x = 0 then "none" else if bits < 64 * k then "panic" else s!"{max 1 ((bits + 63) / 64)}:{natToHex x}"
+        match nzBoxedNew a with
+        | .ok a => both (resStr (showB pNz) (nzBoxedWiden a bits)) l0
+        | _ => both "none" l0
+    | none => badArgs
+  | "c12.nz.b.clone", [k, v] => b1 k v fun a k x =>
+      match nzBoxedNew a with
+      | .ok a => both (resStr (showB pNz) (wrapSame a)) (optNzB k x "none")
+      | _ => both "none" (optNzB k x "none")
+  | "c12.nz.b.zeroize", [k, v] => b1 k v fun a k x =>
+      match nzBoxedNew a with
+      | .ok a => both (resStr (showB pNz) (wrapZeroize a)) (if x = 0 then "none" else s!"{k}:1")
+      | _ => both "none" (if x = 0 then "none" else s!"{k}:1")
+  | "c12.odd.b.new", [k, v] | "c12.odd.b.to_odd", [k, v] => b1 k v fun a k x => both (resStr (showB pOdd) (oddNew a)) (optOddB k x "none")
+  | "c12.odd.b.default", [] => both (resStr (showB pOdd) oddBoxedDefault) "1:1"
+  | "c12.odd.b.random", [bits, s] =>
+    match bits.toNat?, words? s with
+    | some bits, some ws =>
+      let k := (bits + 63) / 64
+      let l0 := if bits = 0 then "1:1 0" else if ws.length < k then "panic" else
+        let v := val ((ws.take k).map (· % B)) % 2 ^ bits
+        s!"{k}:{natToHex (v - v % 2 + 1)} {k}"
+      both (resStr (fun r : List Nat × Nat => s!"{showB pOdd r.1} {r.2}") (oddBoxedRandom bits ws)) l0
+    | _, _ => badArgs
+  | "c12.odd.b.as_nz_ref", [k, v] => b1 k v fun a k x =>
+      match oddNew a with
+      | .ok a => both (resStr (showB pNz) (oddAsNzRef a)) (optOddB k x "none")
+      | _ => both "none" (optOddB k x "none")
+  | "c12.odd.b.clone", [k, v] | "c12.odd.b.monty_modulus", [k, v] => b1 k v fun a k x =>
+      match oddNew a with
+      | .ok a => both (resStr (showB pOdd) (wrapSame a)) (optOddB k x "none")
+      | _ => both "none" (optOddB k x "none")
+  | "c12.odd.b.zeroize", [k, v] => b1 k v fun a k x =>
+      match oddNew a with
+      | .ok a => both (resStr (showB pOdd) (wrapZeroize a)) (if x % 2 = 0 then "none" else s!"{k}:1")
+      | _ => both "none" (if x % 2 = 0 then "none" else s!"{k}:1")
+  | _, _ => none
+
+end CB.Wrappers.D12
+
 namespace CB
+open CB.Wrappers
 
 /-- operations of property C12 (op names start with `c12.`) -/
-def dispatchC12 : Dispatch := fun _ _ => none
+def dispatchC12 : Dispatch := fun op args =>
+  if op = "c12.inventory" then some ("producer-unknown-to-model:" ++ "_".intercalate args)
+  else if op = "c12.inventory.ok" then some ("covered " ++ " ".intercalate args)
+  else
+  match op.splitOn "." with
+  | [_, _, "l", _] => Wrappers.D12.limbOps op args
+  | [_, _, "b", _] => Wrappers.D12.boxedOps op args
+  | [_, _, _, _] =>
+    match args with
+    | n :: rest =>
+      match n.toNat? with
+      | some n => if n = 1 ∨ n = 2 ∨ n = 4 then Wrappers.D12.fixedOps op n rest else some "unsupported-width"
+      | none => badArgs
+    | [] => none
+  | _ => none
 
 end CB
